@@ -585,7 +585,15 @@ class StructuredGrid(Grid):
         def trans(data):
             """Transformation."""
             # could be optimized
-            return other.from_canonical(self.to_canonical(data))
+            # data crossing a link has a leading time axis; to_canonical/from_canonical
+            # expect additional axes last (first if the axes are reversed)
+            has_time = np.ndim(data) == len(self.data_shape) + 1
+            if has_time and not self.axes_reversed:
+                data = np.moveaxis(data, 0, -1)
+            data = other.from_canonical(self.to_canonical(data))
+            if has_time and not other.axes_reversed:
+                data = np.moveaxis(data, -1, 0)
+            return data
 
         # only use trans if grids are compatible but NOT equal
         return None if self == other else trans
